@@ -188,6 +188,9 @@ def parse_rvalue(rv):
         if all(p.startswith(('copy ', 'move ', 'const ')) for p in parts):
             return ('aggr', [parse_operand(p) for p in parts], None)
     if rv.startswith('[') and rv.endswith(']'):
+        m = re.match(r'^\[(.*); (\d+)\]$', rv)
+        if m and m.group(1).startswith(('copy ', 'move ', 'const ')):
+            return ('repeat', parse_operand(m.group(1)), int(m.group(2)))
         return ('unknown', rv)
     return ('unknown', rv)
 
